@@ -218,6 +218,18 @@ func (b *bridgeHist) mineDeposits(nDep int, coinbaseDeposit bool) *world.BtcBloc
 		}
 		tx, d := mk(false)
 		pends = append(pends, pend{len(txs), d, nil})
+		if d.Version == 0 && r.Intn(4) == 0 {
+			// one Bitcoin transaction carrying two deposits (two outputs, each to its own deposit script): the unit of
+			// "credited at most once" is (transaction id, output index), not the transaction
+			key2 := b.keys[r.Intn(len(b.keys))]
+			evm2 := b.newEvm()
+			value2 := b.depositValue()
+			outs2, _ := b.depositOutputs(key2, evm2, 0, value2, 0)
+			tx.AddTxOut(outs2[len(outs2)-1])
+			d2 := &depTruth{Vout: uint32(len(tx.TxOut) - 1), Value: value2, Version: 0, Key: key2, Evm: evm2}
+			pends = append(pends, pend{len(txs), d2, nil})
+			b.lh.c.Count("bitcoin_transactions_with_two_deposits", 1)
+		}
 		txs = append(txs, tx)
 	}
 	for f := r.Intn(3); f > 0 && !(coinbaseDeposit && nDep == 0); f-- { // (coinbase deposit, 0 others) = a block of one transaction
